@@ -1503,6 +1503,14 @@ int run_case(const uint8_t *data, size_t n, CaseCtx &ctx) {
   } else if (P == "C07") {
     run_c07(c, x);
     ctx.nontrivial = nn == 1 || ctx.feats.count("n_mult_bucket") || ctx.feats.count("maxlen_ge128") || ctx.feats.count("memalloc_small") || ctx.labels.count("iterator_abandoned");
+  } else if (P == "C18") {
+    // chunked table decoding as the code base uses it: the coded dictionary kinds must give back every
+    // string they coded (events are re-attributed to C18, clause prefix C01:)
+    attr_override = "C18";
+    for_states(c, [&](Obj &o) { sweep_c01(o, c, x); });
+    attr_override.clear();
+    ctx.nontrivial = nn >= 2;
+    if (c.gi.family == 7) ctx.labels.insert("c18_big_skewed_text");
   } else if (P == "C16") {
     for_states(c, [&](Obj &o) { sweep_c16(o, c, x); });
     ctx.nontrivial = ctx.labels.count("supported_after_unsupported");
